@@ -211,6 +211,24 @@ CHECKS = {
         technique="Coq proof (storage lemmas, step semantics of the persistence bookkeeping) + "
                   "differential correspondence and monitor evaluated by vm_compute",
         design_ref="DESIGN.md section 6/C06"),
+    'C12': dict(
+        text="The acceptor (Model/OutputAsync.v) specifies which step may follow which in each mode "
+             "(wait: one run at a time in arrival order; cancel: a run is cancelled only when a newer "
+             "put is waiting, older queued puts are discarded with a cancel report; start: each put "
+             "starts its own run; the output counts runs incl. guard time, which ends exactly "
+             "guard_time after the coroutine and cannot be shortened). Theorem (Props/C12.v): for "
+             "every accepted step list that ends quiescent every accepted put has exactly one "
+             "result event and nothing else has one (counting invariant over all reachable states). "
+             "Tie: the ordered log of puts, coroutine start/end/cancellation, result events, output "
+             "changes and the stop on the virtual clock must be accepted; the monitor re-checks the "
+             "per-put accounting and the output tracking on the observed log.",
+        technique="Coq proof (occurrence-count invariant over step lists) + trace acceptance and "
+                  "monitor evaluated by vm_compute",
+        level_note="Trusted: Coq kernel/vm_compute, hand-written acceptor tied by this run's "
+                   "correspondence; partial: asyncio's ordering inside one instant and shield_cancel are "
+                   "not modelled (the observed interleaving is the input); stop_timeout expiry is "
+                   "outside the model (runs use a long stop_timeout).",
+        design_ref="DESIGN.md section 6/C12"),
 }
 
 NOT_YET = "check not built yet in this round (planned: Coq model + theorems + correspondence, see DESIGN.md section 6)"
